@@ -7,7 +7,10 @@
 //         <dump> \t P=<prec> \t V=<r> \t F=<r> \t O=<oracle entries> \t U=<ulp error|-> [\t#ORACLE:<what>]
 //       V eval_mpfr, F evalf(prec, Real) (prec > 53; "-" otherwise),
 //       O values of MPFR calls the Coq model cannot compute, at <prec> bits, computed here by direct MPFR calls
-//         (kind,code,args=value separated by '|'): pi, euler, catalan, exp(1), sqrt(5),
+//         (kind,code,args=value separated by '|'): pi, euler, catalan, exp(1), sqrt(5), and for every function / Pow node
+//         of the tree EVERY unary MPFR function at the (library) value v of its argument and at 1/v, pow / atan2 /
+//         gamma_inc at its two argument values in both orders: the model picks the call its formula table names, so a
+//         changed formula (other function, swapped operands) shows as a digit-for-digit difference,
 //       U error of V in ulps of <prec> against the reference evaluator below (2*prec+64 bits).
 //   A <op> <opd> <opd>       op in add sub mul div pow;  opd = I:<z> | Q:<n>/<d> | D:<16 hex> | M:<prec>:<mant>:<exp> | C | CD
 //       Number::add / sub / mul / div / pow of the two operands.  Output:
@@ -27,6 +30,7 @@
 #include <vector>
 #include <string>
 #include <functional>
+#include <algorithm>
 #include <symengine/basic.h>
 #include <symengine/add.h>
 #include <symengine/mul.h>
@@ -374,7 +378,95 @@ static std::string class_name(const Basic &b)
 }
 
 // ------------------------------------------------------------------ E cases
-static std::string oracle_entries(mpfr_prec_t p)
+typedef int (*mpfr_un_fn)(mpfr_ptr, mpfr_srcptr, mpfr_rnd_t);
+struct UnFn {
+    int code; // mfun_code of coq/C45/MpfrTerm.v
+    mpfr_un_fn f;
+};
+static const UnFn UNFNS[] = {
+    {0, mpfr_exp},    {1, mpfr_log},    {2, mpfr_sin},    {3, mpfr_cos},     {4, mpfr_tan},     {5, mpfr_asin},
+    {6, mpfr_acos},   {7, mpfr_atan},   {8, mpfr_sinh},   {9, mpfr_cosh},    {10, mpfr_tanh},   {11, mpfr_asinh},
+    {12, mpfr_acosh}, {13, mpfr_atanh}, {15, mpfr_gamma}, {17, mpfr_erf},    {18, mpfr_erfc},   {100, mpfr_sec},
+    {101, mpfr_csc},  {102, mpfr_cot},  {103, mpfr_sech}, {104, mpfr_csch},  {105, mpfr_coth},  {106, mpfr_sqrt},
+    {107, mpfr_lngamma},
+};
+
+// every MPFR function the formula table could apply to the value x (or to 1/x), at precision p
+static void unary_entries(mpfr_srcptr x, mpfr_prec_t p, std::vector<std::string> &out)
+{
+    if (!mpfr_number_p(x))
+        return;
+    mpfr_t a, r;
+    mpfr_init2(a, p);
+    mpfr_init2(r, p);
+    for (int inv = 0; inv < 2; inv++) {
+        if (inv) {
+            if (mpfr_zero_p(x))
+                break;
+            mpfr_ui_div(a, 1, x, MPFR_RNDN);
+        } else {
+            mpfr_set(a, x, MPFR_RNDN);
+        }
+        std::string key = fmt_mpfr(a);
+        for (const UnFn &u : UNFNS) {
+            u.f(r, a, MPFR_RNDN);
+            out.push_back("1," + std::to_string(u.code) + "," + key + "=" + fmt_mpfr(r));
+        }
+    }
+    mpfr_clear(a);
+    mpfr_clear(r);
+}
+
+static void binary_entries(mpfr_srcptr x, mpfr_srcptr y, mpfr_prec_t p, std::vector<std::string> &out)
+{
+    if (!mpfr_number_p(x) || !mpfr_number_p(y))
+        return;
+    mpfr_t r;
+    mpfr_init2(r, p);
+    std::string kx = fmt_mpfr(x), ky = fmt_mpfr(y);
+    for (int sw = 0; sw < 2; sw++) {
+        mpfr_srcptr a = sw ? y : x, b = sw ? x : y;
+        std::string key = (sw ? ky + ";" + kx : kx + ";" + ky);
+        mpfr_pow(r, a, b, MPFR_RNDN);
+        out.push_back("2,3," + key + "=" + fmt_mpfr(r));
+        mpfr_atan2(r, a, b, MPFR_RNDN);
+        out.push_back("2,4," + key + "=" + fmt_mpfr(r));
+        mpfr_gamma_inc(r, a, b, MPFR_RNDN);
+        out.push_back("2,101," + key + "=" + fmt_mpfr(r));
+    }
+    mpfr_clear(r);
+}
+
+// values (library, precision p) of the arguments of every function / Pow node of the tree -> candidate MPFR calls
+static void walk_entries(const Basic &b, mpfr_prec_t p, std::vector<std::string> &out, int &budget)
+{
+    vec_basic args = b.get_args();
+    for (auto &c : args)
+        walk_entries(*c, p, out, budget);
+    TypeID t = b.get_type_code();
+    if (t == SYMENGINE_ADD || t == SYMENGINE_MUL || args.empty() || args.size() > 2 || budget <= 0)
+        return;
+    if (t == SYMENGINE_MAX || t == SYMENGINE_MIN || t == SYMENGINE_UNEVALUATED_EXPR || t == SYMENGINE_ABS
+        || t == SYMENGINE_EQUALITY || t == SYMENGINE_UNEQUALITY || t == SYMENGINE_LESSTHAN || t == SYMENGINE_STRICTLESSTHAN)
+        return;
+    budget--;
+    std::vector<mpfr_class> vals;
+    for (auto &c : args) {
+        mpfr_class v(p);
+        try {
+            eval_mpfr(v.get_mpfr_t(), *c, MPFR_RNDN);
+        } catch (...) {
+            return;
+        }
+        vals.push_back(std::move(v));
+    }
+    for (auto &v : vals)
+        unary_entries(v.get_mpfr_t(), p, out);
+    if (vals.size() == 2)
+        binary_entries(vals[0].get_mpfr_t(), vals[1].get_mpfr_t(), p, out);
+}
+
+static std::string oracle_entries(mpfr_prec_t p, const Basic &b)
 {
     mpfr_t x, y;
     mpfr_init2(x, p);
@@ -393,6 +485,16 @@ static std::string oracle_entries(mpfr_prec_t p)
     s += "|1,106,5:0=" + fmt_mpfr(x);
     mpfr_clear(x);
     mpfr_clear(y);
+    std::vector<std::string> more;
+    int budget = 12;
+    try {
+        walk_entries(b, p, more, budget);
+    } catch (...) {
+    }
+    std::sort(more.begin(), more.end());
+    more.erase(std::unique(more.begin(), more.end()), more.end());
+    for (auto &m : more)
+        s += "|" + m;
     return s;
 }
 
@@ -453,7 +555,7 @@ static void run_expr(const std::string &rest, int wfd)
             oracle += " evalf-differs-from-eval_mpfr";
     }
     emit_fd(wfd, "\tF=" + F);
-    emit_fd(wfd, "\tO=" + oracle_entries(prec));
+    emit_fd(wfd, "\tO=" + oracle_entries(prec, *b));
     // ---- accuracy against the reference (testing)
     std::string U = "-";
     if (have && mpfr_number_p(v.get_mpfr_t())) {
@@ -568,8 +670,7 @@ static bool parse_opd(const std::string &s, Opd &o)
     } else if (o.kind == 'Q') {
         mpq_set_str(o.q, body.c_str(), 10);
         mpq_canonicalize(o.q);
-        rational_class rc(body);
-        canonicalize(rc);
+        rational_class rc(o.q);
         o.num = Rational::from_mpq(rc);
         o.exact_ok = true;
     } else if (o.kind == 'D') {
